@@ -208,11 +208,15 @@ Definition delay_out_eqb : list ev -> list ev -> bool := list_eqb ev_eqb.
 Record ptask := mkP { p_last : Z; p_ival : Z; p_cancelled : bool; p_handle : option Z; p_now : Z }.
 
 Inductive pev := PCalled (t : Z) | PReject.
-Inductive pstep := PRun | PCancel (t : Z).
+Inductive pstep := PRun | PCancel (t : Z) | PAt (t : Z).
 
 Definition p_init (t0 ival : Z) : ptask := mkP t0 ival false (Some (t0 + ival)) t0.
 
-(* _run: _last_call += interval; if canceled: return; callback(); _schedule() *)
+Definition p_time_ok (p : ptask) (t : Z) : bool :=
+  (p_now p <=? t) && (match p_handle p with Some w => t <=? w | None => true end).
+
+(* PRun is the loop running _run:  _last_call += interval; if canceled: return; callback(); _schedule()
+   PCancel t: cancel() at time t;  PAt t: the outside world looks at time t (no handle may be overdue) *)
 Definition p_step (st : ptask * list pev) (s : pstep) : ptask * list pev :=
   let (p, out) := st in
   match s with
@@ -228,8 +232,12 @@ Definition p_step (st : ptask * list pev) (s : pstep) : ptask * list pev :=
           else (p, PReject :: out)
       end
   | PCancel t =>
-      if (p_now p <=? t) && (match p_handle p with Some w => t <=? w | None => true end)
+      if p_time_ok p t
       then (mkP (p_last p) (p_ival p) true (p_handle p) t, out)
+      else (p, PReject :: out)
+  | PAt t =>
+      if p_time_ok p t
+      then (mkP (p_last p) (p_ival p) (p_cancelled p) (p_handle p) t, out)
       else (p, PReject :: out)
   end.
 
